@@ -127,6 +127,11 @@ def run_sched_property(pid, tier, seed, level="other", level_note=None, extra_ca
                 common.violation(pid, dict(kind="sched", correspondence="in-Coq (vm_compute) evaluation of the concurrent model vs the implementation's final structure and results",
                                            mismatch=xmism, error=xerr), found_input=False)
                 viol_count = 1
+        gocov = None
+        if pid == "C03":
+            cp = os.path.join(tmp, "cov.ccases")
+            gensched.write_cases([c for c in cases if not any(x.startswith("all") for x in c["sched"])][:200], cp)
+            gocov = shadow.coverage_of(tmp, vh, "sched", cp)
         sample_key = next(iter(go))
         sample_case = byid[sample_key[0]]
         coverage = dict(
@@ -139,7 +144,7 @@ def run_sched_property(pid, tier, seed, level="other", level_note=None, extra_ca
             traces_validated_against_impl=len(go) - len(mismatches),
             correspondence_mismatches=len(mismatches), monitor_violations=len(mon_viol),
             exhaustively_enumerated_programs=len(corpus), enumerations_truncated=sum(1 for r in go.values() if r.get("enum_truncated")),
-            model_invariant_CI=ci, in_coq_crosscheck_concurrent=xcc,
+            model_invariant_CI=ci, in_coq_crosscheck_concurrent=xcc, go_statement_coverage=gocov,
             deadlocks_seen=sum(1 for r in go.values() if r["deadlock"]), truncated_runs=sum(1 for r in go.values() if r["truncated"]),
             samples=[dict(type=sample_case["type"], order=sample_case["order"], init=sample_case["init"][:10], progs=sample_case["progs"],
                           schedule=schedcheck.executed_schedule(go[sample_key])[:60])],
